@@ -44,6 +44,21 @@ class _Continue(Exception):
 _PURE_METHODS = {"__getitem__", "__contains__", "__len__", "join", "get", "items", "keys", "values", "upper", "lower", "encode", "decode", "replace", "split", "rsplit", "partition", "rpartition", "strip", "lstrip", "rstrip",
                  "startswith", "endswith", "isdigit", "isnumeric", "find", "rfind", "count", "index", "hex", "format", "zfill", "removeprefix", "removesuffix", "copy",
                  "append", "extend", "update", "pop", "insert", "clear", "setdefault", "isalpha", "isupper", "islower", "title"}
+_LOG_METHODS = {"debug", "info", "warning", "warn", "error", "exception", "critical", "fatal", "verbose", "log"}
+
+
+def _is_logging_call(receiver_src: str, method: str) -> bool:
+    """`<...>log.info(...)`, `self.__log.verbose(...)`, `logger.debug(...)`, `logging.error(...)`: a logger-named receiver (its last
+    component is log / logger / logging, with or without leading underscores or a class-name mangle) and a logging method."""
+    import re as _re
+
+    last = receiver_src.split(".")[-1]
+    return method in _LOG_METHODS and bool(_re.fullmatch(r"_*(?:[A-Za-z0-9]+__)?_*(?:log|logger|logging|LOG|LOGGER)", last))
+
+
+_MUTATORS = {"append", "extend", "update", "pop", "insert", "clear", "setdefault", "add", "remove", "discard", "sort", "reverse", "popitem", "appendleft", "popleft"}
+
+
 def _chain_from_iterable(x):
     import itertools
 
@@ -98,7 +113,7 @@ def _tee(x, n=2):
 
 
 _PURE_BUILTINS = {"accumulate": _accumulate, "chain": _chain, "islice": _islice, "tee": _tee, "zip_longest": _zip_longest, "next": _next, "enumerate": lambda *a: list(enumerate(*a)), "zip": lambda *a: list(zip(*a)), "range": lambda *a: list(range(*a)), "sorted": sorted, "reversed": lambda x: list(reversed(x)),
-                  "sum": sum, "any": any, "all": all, "bin": bin, "hex": hex, "oct": oct, "chr": chr, "ord": ord, "divmod": divmod, "pow": pow, "int": int, "float": float, "str": str, "len": len, "bool": bool, "min": min, "max": max, "abs": abs, "round": round, "list": list, "tuple": tuple, "bytes": bytes, "set": set, "dict": dict, "bytearray": bytearray}
+                  "sum": sum, "any": any, "all": all, "bin": bin, "hex": hex, "oct": oct, "chr": chr, "ord": ord, "divmod": divmod, "pow": pow, "int": int, "float": float, "str": str, "len": len, "bool": bool, "min": min, "max": max, "abs": abs, "round": round, "list": list, "tuple": tuple, "bytes": bytes, "set": set, "dict": dict, "bytearray": bytearray, "slice": slice}
 
 
 def _has_unknown(v, depth=0):
@@ -289,8 +304,9 @@ class Interp:
     # ------------------------------------------------------------------ expressions
     def ev(self, e, env, depth=0):
         pre = self.__dict__.setdefault("_pre", {})
-        if id(e) in pre:
-            v = pre[id(e)]
+        fr = self.__dict__.get("_frame", 0)  # (argument values are cached per activation: a recursive call evaluates the same nodes again)
+        if (id(e), fr) in pre:
+            v = pre[(id(e), fr)]
             if isinstance(v, _Unknown):
                 raise v
             return v
@@ -301,13 +317,13 @@ class Interp:
 
             def precache():
                 for a in list(e.args) + [k.value for k in e.keywords]:
-                    if isinstance(a, ast.Starred) or id(a) in pre:
+                    if isinstance(a, ast.Starred) or (id(a), fr) in pre:
                         continue
                     try:
-                        pre[id(a)] = self._ev(a, env, depth)
+                        pre[(id(a), fr)] = self._ev(a, env, depth)
                     except _Unknown as u:
-                        pre[id(a)] = u
-                    mine.append(id(a))
+                        pre[(id(a), fr)] = u
+                    mine.append((id(a), fr))
 
             hooked = self.__dict__.setdefault("_hooked", set())
             try:
@@ -332,21 +348,85 @@ class Interp:
                     helper = isinstance(ref, FuncRef) and isinstance(getattr(ref, "node", None), ast.FunctionDef)
                     if helper:
                         self.__dict__.setdefault("_nofold", set()).add(id(e))
-                if not helper and not self._mentions_obj(e, env):
+                mutator = isinstance(e.func, ast.Attribute) and e.func.attr in _MUTATORS  # must act on the environment's own object
+                if not helper and not mutator and not self._mentions_obj(e, env):
                     v0 = self.ctx.folder.eval(e, self.module, env=env)
                     if isinstance(v0, frozenset) and isinstance(e.func, ast.Name) and e.func.id == "set":
                         return set(v0)  # a fresh mutable set (the folder's constants are immutable)
                     if v0 is not UNKNOWN:
                         return v0
                 precache()
+                f_ = e.func
+                if isinstance(f_, ast.Attribute) and any(isinstance(x, ast.Call) for x in ast.walk(f_.value)) \
+                        and not any(isinstance(x, ast.Call) and isinstance(x.func, ast.Name) and x.func.id == "super" for x in ast.walk(f_.value)):
+                    # a method call on the result of a call: the receiver is evaluated exactly once, bound to a temporary name, and
+                    # the call is dispatched on that name (hooks and handlers then see an ordinary `name.method(...)`)
+                    rv = self.ev(f_.value, env, depth)  # (not foldable -> the whole call is not foldable: the receiver is never evaluated twice)
+                    if rv is not UNKNOWN:
+                        tmp = f"__rcv{id(e)}"
+                        env2 = _ChildEnv(env)
+                        dict.__setitem__(env2, tmp, rv)
+                        e2 = ast.copy_location(ast.Call(func=ast.copy_location(ast.Attribute(value=ast.copy_location(ast.Name(id=tmp, ctx=ast.Load()), f_.value), attr=f_.attr, ctx=ast.Load()), f_), args=e.args, keywords=e.keywords), e)
+                        self.__dict__.setdefault("_keep", []).append(e2)  # (ids of synthetic nodes must stay unique while cached)
+                        return self.ev(e2, env2, depth)
                 return self._ev(e, env, depth)
             finally:
                 for i in mine:
-                    if isinstance(i, tuple):
+                    if i[0] == "hooked":
                         hooked.discard(i[1])
                     else:
                         pre.pop(i, None)
         return self._ev(e, env, depth)
+
+    def _factory_class(self, fi):
+        """A class factory: a module-level function whose body defines one class and returns it (Struct, Array, StructTag, ...)."""
+        body = fi.node.body
+        cds = [s_ for s_ in body if isinstance(s_, ast.ClassDef)]
+        if len(cds) != 1 or not body or not (isinstance(body[-1], ast.Return) and isinstance(body[-1].value, ast.Name) and body[-1].value.id == cds[0].name):
+            return None
+        ci = self.ctx.model.classes.get(f"{fi.module.name}:{fi.qualname}.{cds[0].name}")
+        return (cds[0], ci) if ci is not None else None
+
+    def _fold_factory(self, fi, fc, args, kwargs, depth):
+        """The class a factory call returns, as a class witness: the factory's parameters are bound, the statements ahead of the
+        class definition are folded, and the class attributes are evaluated in that scope."""
+        cd, ci = fc
+        a = fi.node.args
+        other = self if fi.module is self.module else Interp(self.ctx, fi.module, self.hook, self.max_depth, self.cls)
+        params = [x.arg for x in a.args]
+        env2 = dict(zip(params, args))
+        extra = list(args[len(params):])
+        if extra and a.vararg is None:
+            raise TypeError("too many positional arguments")
+        if a.vararg is not None:
+            env2[a.vararg.arg] = tuple(extra)
+        names = set(params) | {x.arg for x in a.kwonlyargs}
+        for k_, v_ in kwargs.items():
+            if k_ in names:
+                if k_ in env2:
+                    raise TypeError("multiple values for an argument")
+                env2[k_] = v_
+            elif a.kwarg is None:
+                raise TypeError("unexpected keyword argument")
+        if a.kwarg is not None:
+            env2[a.kwarg.arg] = {k_: v_ for k_, v_ in kwargs.items() if k_ not in names}
+        for p_, d_ in zip(params[len(params) - len(a.defaults):], a.defaults):
+            if p_ not in env2:
+                env2[p_] = other.ev(d_, {}, depth)
+        for p_, d_ in zip(a.kwonlyargs, a.kw_defaults):
+            if p_.arg not in env2 and d_ is not None:
+                env2[p_.arg] = other.ev(d_, {}, depth)
+        missing = [n_ for n_ in list(params) + [x.arg for x in a.kwonlyargs] if n_ not in env2]
+        if missing:
+            raise TypeError("missing argument")
+        for st in fi.node.body:
+            if st is cd:
+                break
+            if isinstance(st, ast.Expr) and isinstance(st.value, ast.Constant):
+                continue
+            other._stmt(st, env2, depth + 1)
+        attrs = {name: other.ev(expr, env2, depth + 1) for name, expr in ci.attrs.items()}
+        return Obj(_ci=ci, _is_class=True, **attrs)
 
     def _obj_attr(self, o, attr, depth):
         if attr in o.__dict__:
@@ -622,6 +702,14 @@ class Interp:
                     args, kwargs = self._call_args(e, env, depth)
                     return self.construct(callee.ci, args, kwargs, depth)
             fi = None
+            if depth >= self.max_depth and isinstance(e.func, ast.Name) and e.func.id not in env:
+                fi0 = self.ctx.model.functions.get(f"{self.module.name}:{e.func.id}")
+                if fi0 is None:
+                    ref0 = self.ctx.folder.eval(e.func, self.module)
+                    fi0 = self.ctx.model.func_by_node.get(ref0.node) if isinstance(ref0, FuncRef) and isinstance(getattr(ref0, "node", None), ast.FunctionDef) else None
+                if fi0 is not None and fi0.cls is None and self._factory_class(fi0) is not None:
+                    args, kwargs = self._call_args(e, env, depth)
+                    return self._fold_factory(fi0, self._factory_class(fi0), args, kwargs, depth)
             if depth < self.max_depth and not self._mentions_obj(e.func, env):
                 if isinstance(e.func, ast.Name):
                     fi = self.ctx.model.functions.get(f"{self.module.name}:{e.func.id}")
@@ -631,6 +719,11 @@ class Interp:
                         fi = self.ctx.model.func_by_node.get(ref.node)
                         if fi is not None and (fi.cls is not None or "." in fi.qualname):
                             fi = None  # methods are not helpers: codecs etc. have their own witnesses
+            if fi is not None:
+                fc = self._factory_class(fi)
+                if fc is not None:
+                    args, kwargs = self._call_args(e, env, depth)
+                    return self._fold_factory(fi, fc, args, kwargs, depth)
             if fi is not None and fi.module is not self.module and not e.keywords:
                 # a module-level helper of another module: interpret it in its own module
                 args = [self.ev(a, env, depth) for a in e.args]
@@ -801,6 +894,8 @@ class Interp:
                 args = [self.ev(a, env, depth) for a in e.args]
                 if e.func.attr in ("append", "extend", "update", "pop", "insert", "clear", "setdefault") or all(not isinstance(a, (Obj, Stream, Bound)) for a in args):
                     return getattr(recv_, e.func.attr)(*args)
+            if isinstance(recv_, (list, set, dict, bytearray)) and e.func.attr in _MUTATORS and hasattr(recv_, e.func.attr):
+                return getattr(recv_, e.func.attr)(*[self.ev(a, env, depth) for a in e.args])
         if isinstance(e, ast.Call) and isinstance(e.func, ast.Name) and e.func.id == "isinstance" and len(e.args) == 2 and "isinstance" not in env:
             kinds = {"str": (str,), "bytes": (bytes,), "bytearray": (bytearray,), "int": (int,), "float": (float,), "bool": (bool,), "list": (list,), "tuple": (tuple,), "dict": (dict,),
                      "set": (set, frozenset), "Sequence": (list, tuple, str, bytes, range), "Mapping": (dict,), "Iterable": (list, tuple, str, bytes, dict, set, range), "Generator": ()}
@@ -916,6 +1011,9 @@ class Interp:
         raise _Unknown(f"expression not foldable: {ast.unparse(e)[:80]}")
 
     def _exc_isa(self, name, parent):
+        from .cfg import EXC_ALIASES
+
+        name, parent = EXC_ALIASES.get(name, name), EXC_ALIASES.get(parent, parent)
         if name == parent or parent in ("Exception", "BaseException"):
             return True
         for c in self.ctx.model.classes.values():
@@ -981,10 +1079,15 @@ class Interp:
 
     # ------------------------------------------------------------------ statements
     def call(self, func, env, depth=0):
+        outer = self.__dict__.get("_frame", 0)
+        self.__dict__["_frames"] = self.__dict__.get("_frames", 0) + 1
+        self._frame = self.__dict__["_frames"]
         try:
             self.block(func.body, env, depth)
         except _Return as r:
             return r.value
+        finally:
+            self._frame = outer
         return None
 
     def block(self, stmts, env, depth):
@@ -1051,8 +1154,8 @@ class Interp:
                 rounds, broke = 0, False
                 while self.ev(st.test, env, depth):
                     rounds += 1
-                    if rounds > 64:
-                        raise _Unknown("while loop does not end on the witness within 64 rounds")
+                    if rounds > 400:
+                        raise _Unknown("while loop does not end on the witness within 400 rounds")
                     try:
                         self.block(st.body, env, depth)
                     except _Break:
@@ -1112,7 +1215,7 @@ class Interp:
         if isinstance(e, ast.Call) and isinstance(e.func, ast.Attribute):
             recv = e.func.value
             rn = ast.unparse(recv)
-            if "log" in rn.lower():
+            if _is_logging_call(rn, e.func.attr):
                 return
             target = None
             if isinstance(recv, ast.Name) and recv.id in env and isinstance(env[recv.id], (list, dict, set)):
